@@ -20,10 +20,12 @@ VARIABLES l,      \* next line of the trace
           L, F, FT, \* ghost history (NinjaRef); FT: last failure touched its outputs
           iv,     \* state of the current invocation
           prev,   \* summary of the previous invocation (for C02)
-          relax,  \* TRUE after a crash / known-finding deviation: exactness monitors off
+          relax,  \* TRUE after a crash or interrupt: the exactness monitors (C02, C03, -k completeness) are off
+          taint,  \* TRUE after a deviation attributed to a known finding: engine monitors off until the next Reset
+          afterCrash, \* the previous invocation died or was interrupted
           viol,   \* violation records found so far
           stats   \* counters for the evidence
-vars == <<l, meta, g, L, F, FT, iv, prev, relax, viol, stats>>
+vars == <<l, meta, g, L, F, FT, iv, prev, relax, taint, afterCrash, viol, stats>>
 
 NoIv == [active |-> FALSE]
 NoPrev == [ok |-> FALSE, targets |-> {}]
@@ -32,7 +34,7 @@ Stats0 == [execs |-> 0, invokes |-> 0, starts |-> 0, nontrivial |-> 0, kf |-> 0]
 
 Init == /\ l = 1 /\ meta = [sc |-> "", run |-> 0] /\ g = EmptyG
         /\ L = <<>> /\ F = {} /\ FT = {} /\ iv = NoIv /\ prev = NoPrev
-        /\ relax = FALSE /\ viol = {} /\ stats = Stats0
+        /\ relax = FALSE /\ taint = FALSE /\ afterCrash = FALSE /\ viol = {} /\ stats = Stats0
 
 E == Tr[l]
 Is(name) == l <= Len(Tr) /\ E.e = name
@@ -50,7 +52,7 @@ TReset ==
   /\ meta' = [sc |-> E.sc, run |-> E.run]
   /\ g' = E.g
   /\ L' = [i \in 1..Len(E.g.stmts) |-> LastNone]
-  /\ F' = {} /\ FT' = {} /\ iv' = NoIv /\ prev' = NoPrev /\ relax' = FALSE
+  /\ F' = {} /\ FT' = {} /\ iv' = NoIv /\ prev' = NoPrev /\ relax' = FALSE /\ taint' = FALSE /\ afterCrash' = FALSE
   /\ stats' = [stats EXCEPT !.execs = @ + 1]
   /\ UNCHANGED viol /\ Step
 
@@ -65,7 +67,7 @@ TEnv ==
             [] OTHER -> L
   /\ F' = IF E.op = "setstmts" THEN {} ELSE F
   /\ prev' = NoPrev
-  /\ UNCHANGED <<meta, FT, iv, relax, viol, stats>> /\ Step
+  /\ UNCHANGED <<meta, FT, iv, relax, taint, afterCrash, viol, stats>> /\ Step
 
 \* -- Invoke ----------------------------------------------------------------
 TInvoke ==
@@ -85,9 +87,9 @@ TInvoke ==
                missingSrc |-> missingSrc, editrun |-> E.editrun, intr |-> E.intr,
                started |-> <<>>, doneOK |-> {}, failed |-> {}, codes |-> {}, run |-> {}, nfail |-> 0,
                skipped |-> {}, ticks |-> {}, stStarted |-> {}, stFinished |-> {}, cnt |-> [tot |-> 0, st |-> 0, fin |-> 0],
-               interrupted |-> FALSE, killed |-> {}, startsAfterBudget |-> 0]
+               interrupted |-> FALSE, killed |-> {}, partial |-> {}, startsAfterBudget |-> 0]
   /\ stats' = [stats EXCEPT !.invokes = @ + 1]
-  /\ UNCHANGED <<meta, g, L, F, FT, prev, relax, viol>> /\ Step
+  /\ UNCHANGED <<meta, g, L, F, FT, prev, relax, taint, afterCrash, viol>> /\ Step
 
 \* -- hook events from ninja ---------------------------------------------------
 BudgetLeft == iv.k = 0 \/ iv.nfail < iv.k
@@ -102,13 +104,13 @@ MayStart(i) ==
 THook ==
   /\ Is("H")
   /\ iv' = IF iv.active /\ E.h = "DepsSkipped" /\ E.s # 0 THEN [iv EXCEPT !.skipped = @ \cup {E.s}] ELSE iv
-  /\ viol' = IF iv.active /\ E.h = "Wait" /\ ~relax /\ iv.acyc /\ ~iv.dry /\ iv.tok < 0
-                /\ BudgetLeft /\ Cardinality(iv.run) < iv.j
+  /\ viol' = IF iv.active /\ E.h = "Wait" /\ ~taint /\ iv.acyc /\ ~iv.dry
+                /\ BudgetLeft /\ Cardinality(iv.run) < (IF iv.tok < 0 THEN iv.j ELSE 1 + iv.tok)
                 /\ \E i \in Ids(g) : MayStart(i)
              THEN viol \cup {V("C06", "waits although a command is startable and a slot is free",
                                IF {i \in Ids(g) : MayStart(i)} \subseteq iv.kfT THEN "KF-FAIL-TOUCHED" ELSE "")}
              ELSE viol
-  /\ UNCHANGED <<meta, g, L, F, FT, prev, relax, stats>> /\ Step
+  /\ UNCHANGED <<meta, g, L, F, FT, prev, relax, taint, afterCrash, stats>> /\ Step
 
 TStatus ==
   /\ Is("St")
@@ -121,7 +123,7 @@ TStatus ==
                  ELSE iv
         /\ viol' = IF bad /\ E.c \in {"started", "finished"}
                    THEN viol \cup {V("C20", "progress counter exceeds its bound", "")} ELSE viol
-  /\ UNCHANGED <<meta, g, L, F, FT, prev, relax, stats>> /\ Step
+  /\ UNCHANGED <<meta, g, L, F, FT, prev, relax, taint, afterCrash, stats>> /\ Step
 
 \* -- Start ---------------------------------------------------------------------
 TStart ==
@@ -139,7 +141,7 @@ TStart ==
          notReadyM == notReady \cap Producers(g, T, LM, i)
          kf4 == IF notReady \subseteq iv.kfT THEN "KF-FAIL-TOUCHED"
                 ELSE IF notReadyM \subseteq iv.kfT /\ i \in iv.skipped THEN "KF-DEPS-SKIPPED" ELSE ""
-         v4 == (IF notReady # {} /\ ~relax
+         v4 == (IF notReady # {} /\ ~taint
                 THEN {V("C04", "command started before a producer of one of its inputs finished", kf4)} ELSE {})
                \cup (IF ~E.dirs THEN {V("C04", "output or depfile directory missing at start", "")} ELSE {})
                \cup (IF s.rsp /\ E.rsp # s.rsptxt THEN {V("C16", "response file does not hold the declared content at start", "")} ELSE {})
@@ -156,11 +158,11 @@ TStart ==
         /\ iv' = [iv EXCEPT !.started = Append(@, i), !.run = runNow, !.ticks = @ \cup {<<i, E.t>>}]
         /\ L' = L
   /\ stats' = [stats EXCEPT !.starts = @ + 1]
-  /\ UNCHANGED <<meta, g, F, FT, prev, relax>> /\ Step
+  /\ UNCHANGED <<meta, g, F, FT, prev, relax, taint, afterCrash>> /\ Step
 
 TEditRun ==
   /\ Is("EditRun")
-  /\ UNCHANGED <<meta, g, L, F, FT, iv, prev, relax, viol, stats>> /\ Step
+  /\ UNCHANGED <<meta, g, L, F, FT, iv, prev, relax, taint, afterCrash, viol, stats>> /\ Step
 
 StartTick(i) == LET ps == {p \in iv.ticks : p[1] = i} IN
                 IF ps = {} THEN 0 ELSE (CHOOSE p \in ps : \A q \in ps : q[2] <= p[2])[2]
@@ -181,21 +183,22 @@ TDone ==
                 ELSE L
         /\ F' = IF ok THEN F \ {i} ELSE F \cup {i}
         /\ FT' = IF ok THEN FT \ {i} ELSE IF Len(E.wrote) > 0 THEN FT \cup {i} ELSE FT \ {i}
-  /\ UNCHANGED <<meta, g, prev, relax, viol, stats>> /\ Step
+  /\ UNCHANGED <<meta, g, prev, relax, taint, afterCrash, viol, stats>> /\ Step
 
 TInterrupt ==
   /\ Is("Interrupt")
   /\ iv' = [iv EXCEPT !.interrupted = TRUE]
-  /\ UNCHANGED <<meta, g, L, F, FT, prev, relax, viol, stats>> /\ Step
+  /\ UNCHANGED <<meta, g, L, F, FT, prev, relax, taint, afterCrash, viol, stats>> /\ Step
 
 TAbort ==
   /\ Is("Abort")
-  /\ iv' = IF iv.active THEN [iv EXCEPT !.killed = @ \cup {E.killed[x].s : x \in DOMAIN E.killed}, !.run = {}] ELSE iv
-  /\ UNCHANGED <<meta, g, L, F, FT, prev, relax, viol, stats>> /\ Step
+  /\ iv' = IF iv.active THEN [iv EXCEPT !.killed = @ \cup {E.killed[x].s : x \in DOMAIN E.killed},
+                                        !.partial = @ \cup {E.killed[x].s : x \in {y \in DOMAIN E.killed : E.killed[y].partial}}, !.run = {}] ELSE iv
+  /\ UNCHANGED <<meta, g, L, F, FT, prev, relax, taint, afterCrash, viol, stats>> /\ Step
 
 TSkip ==
   /\ l <= Len(Tr) /\ E.e \in {"Loaded", "Scanned", "Msg", "PoolsAtEnd", "Crash", "SpawnFail", "Logs", "EndRun"}
-  /\ UNCHANGED <<meta, g, L, F, FT, iv, prev, relax, viol, stats>> /\ Step
+  /\ UNCHANGED <<meta, g, L, F, FT, iv, prev, relax, taint, afterCrash, viol, stats>> /\ Step
 
 \* -- Exit ----------------------------------------------------------------------
 HasRecWork(S) == \E i \in S : UsesDeps(St(g, i))
@@ -212,7 +215,7 @@ TExit ==
          kfSkip == /\ iv.expS # iv.exp \/ iv.skipped \cap {i \in Ids(g) : L[i].rec # {}} # {}
                    /\ IF ok THEN startedSet = iv.expS ELSE startedSet \subseteq iv.expS
                    /\ \E i \in iv.skipped : UsesDeps(St(g, i))
-         exact == iv.acyc /\ ~relax /\ ~iv.dry /\ ~iv.missingSrc /\ ~iv.interrupted
+         exact == iv.acyc /\ ~relax /\ ~taint /\ ~iv.dry /\ ~iv.missingSrc /\ ~iv.interrupted
          kfTouch == /\ iv.kfT # {}
                     /\ IF ok THEN startedSet = iv.expNoF ELSE startedSet \subseteq iv.expNoF
          kf == IF kfTouch THEN "KF-FAIL-TOUCHED" ELSE IF kfSkip THEN "KF-DEPS-SKIPPED" ELSE ""
@@ -221,9 +224,14 @@ TExit ==
          v03 == IF exact /\ dev03
                 THEN {V("C03", IF startedSet \subseteq iv.exp THEN "a command that had to run was not run"
                                ELSE "a command ran although nothing it depends on changed", kf)} ELSE {}
-         v01 == IF iv.acyc /\ ok /\ ~iv.editrun /\ ~iv.dry /\ stale # {} /\ ~relax
-                THEN {V("C01", "stale output after a successful build", kf)} ELSE {}
-         v02 == IF prev.ok /\ prev.targets = iv.targets /\ ~iv.dry /\ ~relax /\ (startedSet # {} \/ E.mc # "nowork")
+         \* stale files that lie downstream of a statement whose recorded dependencies were not consulted
+         skipStmts == {i \in iv.skipped : UsesDeps(St(g, i)) /\ L[i].rec # {}}
+         staleBySkip == skipStmts # {} /\ stale \subseteq UNION {Outs(St(g, i)) : i \in Downstream(g, iv.T0, L, skipStmts)}
+         kf01 == IF kf # "" THEN kf ELSE IF staleBySkip THEN "KF-DEPS-SKIPPED" ELSE ""
+         v01 == IF iv.acyc /\ ok /\ ~iv.editrun /\ ~iv.dry /\ stale # {} /\ ~taint
+                THEN {V(IF afterCrash \/ relax THEN "C07" ELSE "C01", "stale output after a successful build", kf01),
+                      V("C01", "stale output after a successful build", kf01)} ELSE {}
+         v02 == IF prev.ok /\ prev.targets = iv.targets /\ ~iv.dry /\ ~taint /\ (startedSet # {} \/ E.mc # "nowork")
                 THEN {V("C02", "second build of the same targets was not a no-op", kf)} ELSE {}
          \* C05: exit status and what is started/finished under -k
          anyFail == iv.failed # {}
@@ -248,12 +256,20 @@ TExit ==
                  THEN {V("C20", "after a successful build finished/started differ from the total", "")} ELSE {})
                 \cup (IF ~iv.interrupted /\ iv.stStarted # iv.stFinished
                       THEN {V("C20", "a started command was never reported finished", "")} ELSE {})
-         v07 == IF iv.interrupted /\ (E.code # 130 \/ Exists(T, ".ninja_lock"))
-                THEN {V("C07", "interrupt: wrong exit status or lock file left behind", "")} ELSE {}
+         v07 == (IF iv.interrupted /\ (E.code # 130 \/ Exists(T, ".ninja_lock"))
+                 THEN {V("C07", "interrupt: wrong exit status or lock file left behind", "")} ELSE {})
+                \cup (IF iv.interrupted /\ \E i \in iv.partial : \E o \in Outs(St(g, i)) : Exists(T, o)
+                      THEN {V("C07", "interrupt: an output that a killed command had already modified was not removed", "")} ELSE {})
+                \cup (IF iv.interrupted /\ \E i \in iv.killed : St(g, i).deps \in {"depfile", "gcc"} /\ \E o \in Outs(St(g, i)) \cup {DepfilePath(St(g, i))} : Exists(T, o)
+                      THEN {V("C07", "interrupt: outputs or depfile of a killed depfile command were not removed", "")} ELSE {})
+                \cup (IF afterCrash /\ ~ok /\ iv.fail = <<>> /\ ~iv.interrupted /\ iv.acyc /\ ~iv.missingSrc
+                      THEN {V("C07", "the build after a crash or interrupt did not succeed", "")} ELSE {})
          newv == v03 \cup v01 \cup v02 \cup v05f \cup v05a \cup v05b \cup v05c \cup v05d \cup v05e \cup v06 \cup v16 \cup v20 \cup v07
          kfHit == \E x \in newv : x.kf # ""
      IN /\ viol' = viol \cup newv
-        /\ relax' = (relax \/ kfHit \/ iv.interrupted)
+        /\ relax' = (relax \/ iv.interrupted)
+        /\ taint' = (taint \/ kfHit)
+        /\ afterCrash' = iv.interrupted
         /\ prev' = [ok |-> ok /\ ~iv.editrun /\ ~iv.dry /\ ~kfHit, targets |-> iv.targets]
         /\ stats' = [stats EXCEPT !.nontrivial = @ + (IF startedSet # {} THEN 1 ELSE 0),
                                   !.kf = @ + (IF kfHit THEN 1 ELSE 0)]
@@ -263,22 +279,22 @@ TExit ==
 \* the process died (crash point) or ended abnormally
 TDied ==
   /\ Is("Died")
-  /\ iv' = NoIv /\ relax' = TRUE /\ prev' = NoPrev
+  /\ iv' = NoIv /\ relax' = TRUE /\ prev' = NoPrev /\ afterCrash' = TRUE
   /\ L' = [i \in DOMAIN L |-> IF iv.active /\ i \in iv.doneOK THEN [L[i] EXCEPT !.unsure = TRUE] ELSE L[i]]
-  /\ UNCHANGED <<meta, g, F, FT, viol, stats>> /\ Step
+  /\ UNCHANGED <<meta, g, F, FT, taint, viol, stats>> /\ Step
 
 TAbnormal ==
   /\ l <= Len(Tr) /\ E.e \in {"Abnormal", "Bad"}
   /\ viol' = viol \cup {V("C06", "invocation ended abnormally (signal, watchdog or harness inconsistency)", "")}
   /\ iv' = NoIv /\ relax' = TRUE /\ prev' = NoPrev
-  /\ UNCHANGED <<meta, g, L, F, FT, stats>> /\ Step
+  /\ UNCHANGED <<meta, g, L, F, FT, taint, afterCrash, stats>> /\ Step
 
 \* all lines consumed: write the result and stop
 TFlush ==
   /\ l = Len(Tr) + 1
   /\ ndJsonSerialize(OutFile, <<[stats |-> stats, viol |-> SetToSeq(viol)]>>)
   /\ l' = l + 1
-  /\ UNCHANGED <<meta, g, L, F, FT, iv, prev, relax, viol, stats>>
+  /\ UNCHANGED <<meta, g, L, F, FT, iv, prev, relax, taint, afterCrash, viol, stats>>
 
 Next == TReset \/ TEnv \/ TInvoke \/ THook \/ TStatus \/ TStart \/ TEditRun \/ TDone \/ TInterrupt
         \/ TAbort \/ TSkip \/ TExit \/ TDied \/ TAbnormal \/ TFlush
